@@ -221,6 +221,8 @@ func VerifC18Update() {
 
 // VerifC18UpdateTSS: the real TSS client. An update whose header the TSS client accepts must succeed.
 func VerifC18UpdateTSS() {
+	rt.RegisterInterfaces(types.RegisterInterfaces)
+	rt.RegisterInterfaces(tsstypes.RegisterInterfaces)
 	ctx := rt.EmptyCtx()
 	k := NewKeeper(rt.Codec(), rt.StoreKey(host.StoreKey), paramtypes.Subspace{}, nil)
 	chain := rt.Str("chainName")
